@@ -1,9 +1,52 @@
 import NemoVerif.Drive.C01
+import NemoVerif.Models.PipelineCtx
 
-/- C02 shares the `Pipeline` driver of C01 (requests `C02.conv` are the same as `C01.conv`). -/
+/- C02 shares the `Pipeline` driver of C01 (requests `C02.conv` are the same as `C01.conv`).
+
+   `C02.ctx`: the event-level model of the two contexts of Colang 1.0 (`Models/PipelineCtx.lean`).
+   request  {"m": "C02.ctx", "drop": b (default false: the code as it is),
+             "in": [[id, pure]..], "out": [[id, pure]..],
+             "turns": [{"user": s, "bot": s, "vin": [[id, v]..], "vout": [[id, v]..], "dialog_fault": b, "no_in": b, "no_out": b}]}
+   response {"turns": [{"in_calls": [[id, text]..], "user_msg": s|null, "out_calls": [[id, text]..], "uttered": s|null}]} -/
 namespace NemoVerif.Drive.C02
-open Lean
+open Lean NemoVerif NemoVerif.Drive NemoVerif.Pipeline NemoVerif.PipelineCtx
 
-def handle (op : String) (j : Json) : Except String Json := NemoVerif.Drive.C01.handle op j
+def railsOfJson (j : Json) : Except String (List Rail) := do
+  let a ← j.getArr?
+  a.toList.mapM fun e => do
+    let p ← e.getArr?
+    if h : p.size = 2 then do
+      let id ← p[0].getNat?
+      let pure_ ← p[1].getBool?
+      pure { id := id, pure := pure_ }
+    else throw "bad rail entry"
+
+def turnEOfJson (j : Json) : Except String TurnE := do
+  let user ← (← j.getObjVal? "user").getStr?
+  let bot ← (← j.getObjVal? "bot").getStr?
+  let vin ← C01.tableOfJson ((j.getObjVal? "vin").toOption.getD (Json.arr #[]))
+  let vout ← C01.tableOfJson ((j.getObjVal? "vout").toOption.getD (Json.arr #[]))
+  pure { user, bot, vin, vout, dialogFault := C01.getBoolD j "dialog_fault" false }
+
+def callsToJson (cs : List (Nat × Text)) : Json :=
+  Json.arr (cs.map fun c => Json.arr #[Json.num (JsonNumber.fromNat c.1), .str c.2]).toArray
+
+def optStrToJson : Option Text → Json
+  | some s => .str s
+  | none => .null
+
+def handle (op : String) (j : Json) : Except String Json := do
+  match op with
+  | "ctx" =>
+    let inRails ← railsOfJson (← j.getObjVal? "in")
+    let outRails ← railsOfJson (← j.getObjVal? "out")
+    let turns ← (← (← j.getObjVal? "turns").getArr?).toList.mapM turnEOfJson
+    let opts := (← (← j.getObjVal? "turns").getArr?).toList.map fun tj =>
+      ({ input := !C01.getBoolD tj "no_in" false, output := !C01.getBoolD tj "no_out" false } : CallOpts)
+    let obs := convEP (C01.getBoolD j "drop" false) inRails outRails [] (opts.zip turns)
+    pure (Json.mkObj [("turns", Json.arr (obs.map fun o =>
+      Json.mkObj [("in_calls", callsToJson o.inCalls), ("user_msg", optStrToJson o.userMsg),
+        ("out_calls", callsToJson o.outCalls), ("uttered", optStrToJson o.uttered)]).toArray)])
+  | _ => NemoVerif.Drive.C01.handle op j
 
 end NemoVerif.Drive.C02
